@@ -106,6 +106,48 @@ func runC12(p *Program, r *Result) {
 				if tt.Op != "Slice" {
 					ok = false
 				}
+				// the output of AEAD.Open / Seal appended to an empty view of a fixed array of the
+				// same object (decrypting into a buffer of its own): still a view of that array
+				// as long as it fits, and it cannot hold more than the input it was given
+				if !ok {
+					vals := []ssa.Value{stripConv(fs.Store.Val)}
+					if ph, isPhi := vals[0].(*ssa.Phi); isPhi {
+						vals = nil
+						for _, e := range ph.Edges {
+							vals = append(vals, stripConv(e))
+						}
+					}
+					all := len(vals) > 0
+					for _, v := range vals {
+						ex, isEx := v.(*ssa.Extract)
+						var oc *ssa.Call
+						if isEx {
+							oc, _ = ex.Tuple.(*ssa.Call)
+						}
+						if oc == nil || !strings.HasPrefix(calleeName(&oc.Call), "invoke (crypto/cipher.AEAD).") || len(oc.Call.Args) != 4 {
+							all = false
+							break
+						}
+						d := tb.Term(oc.Call.Args[0])
+						isView := d.Op == "Slice" && len(d.Args) > 0 && d.Args[0].Op == "Field" && len(d.Args[0].Args) == 1 && d.Args[0].Args[0].Op == "Recv"
+						if isView {
+							fname := strings.SplitN(d.Args[0].S, "@", 2)[0]
+							found := false
+							for _, a := range arrays {
+								if fname == a {
+									found = true
+								}
+							}
+							isView = found
+						}
+						if !isView {
+							all = false
+						}
+					}
+					if all {
+						ok = true
+					}
+				}
 				r.Check(ok, fs.Fn.String(), "store:"+spec.typ+"."+sl, r.pos(fs.Store), "reslice of the fixed array / of itself", "slice field "+sl+" is set to "+t+": not a view of the fixed-size buffer (unbounded growth or aliasing of caller memory)")
 			}
 		}
@@ -129,6 +171,24 @@ func runC12(p *Program, r *Result) {
 						if arr, isArr := al.Type().(*types.Pointer).Elem().Underlying().(*types.Array); isArr && arr.Len() == 1 {
 							oneByte = true
 						}
+					}
+				}
+				// any buffer of constant length 1 will do for the probe (a corner of a field array)
+				if ls, lc, known := tb.lenSym(c.Common().Args[0]); !oneByte && known && ls == "0" && lc == 1 {
+					oneByte = true
+				}
+				if sl, isSl := c.Common().Args[0].(*ssa.Slice); !oneByte && isSl {
+					lo, hi := int64(0), int64(-1)
+					if sl.Low != nil {
+						lo, _ = constInt(sl.Low)
+					}
+					if sl.High != nil {
+						if k, isK := constInt(sl.High); isK {
+							hi = k
+						}
+					}
+					if hi-lo == 1 {
+						oneByte = true
 					}
 				}
 				isProbe := fn.String() == "(*"+pkgStream+".Reader).Read" && oneByte
